@@ -257,7 +257,7 @@ func (g *gen) commandStep() (omap, umap) {
 	want := umap{}
 	taken := clone(commandKnown)
 	// command / commands
-	switch r.Intn(5) {
+	switch r.Intn(6) {
 	case 0:
 		c := g.str()
 		in = append(in, kv{"command", c})
@@ -274,6 +274,10 @@ func (g *gen) commandStep() (omap, umap) {
 		c := g.str()
 		in = append(in, kv{"commands", c})
 		want["command"] = c
+	case 4:
+		// an empty command is still a command step
+		in = append(in, kv{"command", ""})
+		want["command"] = ""
 	default:
 		// a commandless plugin step
 		in = append(in, kv{"plugins", []any{"cache"}})
@@ -401,7 +405,14 @@ func (g *gen) commandStep() (omap, umap) {
 		want["plugins"] = wl
 	}
 	// matrix
-	switch r.Intn(6) {
+	switch r.Intn(9) {
+	case 6:
+		// a matrix without a setup is an empty matrix
+		in = append(in, kv{"matrix", omap{}})
+		want["matrix"] = umap{"setup": umap{}}
+	case 7:
+		in = append(in, kv{"matrix", omap{{"adjustments", []any{omap{{"with", omap{{"os", "win"}}}, {"skip", "not on windows"}}}}}})
+		want["matrix"] = umap{"setup": umap{}, "adjustments": []any{umap{"with": umap{"os": "win"}, "skip": "not on windows"}}}
 	case 0:
 		a, b := genScalar(r), genScalar(r)
 		if a == nil || g.simple {
